@@ -149,3 +149,23 @@ PROPS["C09"] = dict(
                "other curve) and ES256K under GnuTLS are left unconstrained.",
     design_ref="DESIGN.md section 7, C09",
 )
+
+
+PROPS["C14"] = dict(
+    level="model_checking", exhaustive=True,
+    stages=lambda tier, seed: [mc("causes", "MC_C14", "MC_C14_%s.cfg" % tier)],
+    rule="one script per failure cause from MC_C14: 40 failing token classes (NULL/empty, missing dots, header not "
+         "base64 / not JSON / not an object / without or with non-string or unknown alg, payload not base64 / not "
+         "JSON, unsigned, bit-flipped / garbage / non-base64 / truncated / wrong-key / wrong-alg signature, expired, "
+         "not yet valid, exp/nbf of wrong type, altered payload) under HS256 and RS256 (and ES256 in thorough), each "
+         "as ok-fail-ok-fail-clear-fail on one checker; 12 policy causes (no key, refused setkey, iss/aud mismatch, "
+         "callback error, callback-selected inadmissible key/alg, key below floor, wrong family, unknown alg "
+         "attribute); 17 builder causes; 23 JWK defects; value set/get calls. distinct = distinct scripts.",
+    assumptions=ASSUME_COMMON,
+    level_text="Every externally reachable failure cause the specification knows (its reject classes) is enumerated by "
+               "TLC and executed; after each call the return value, the error flag and the message-non-empty bit "
+               "must satisfy the contract, including clearing after success.",
+    level_note="Message texts are not modelled (only emptiness). Causes inside the crypto providers that cannot be "
+               "provoked from outside (internal OpenSSL/GnuTLS failures) are not covered.",
+    design_ref="DESIGN.md section 7, C14",
+)
